@@ -12,10 +12,35 @@ import (
 
 // mutChain rebuilds value v of type t from the type's default by top-level mutations
 // (mirrors driver_ops.ml mut_chain).
-func mutChain(t *Ty, v *Val) (view.View, error) {
+func mutChain(t *Ty, v *Val) (out view.View, err error) {
 	d := t.Def().Default(nil)
+	out = d
 	switch t.Kind {
 	case "list":
+		defer func() {
+			if err == nil && uint64(len(v.Seq)) < t.N && len(v.Seq) > 0 {
+				// one element too many (a copy of the last one), then back
+				last := v.Seq[len(v.Seq)-1]
+				if t.Elem.IsBasicElem() {
+					if e2 := out.(*view.BasicListView).Append(basicView(t.Elem, last)); e2 != nil {
+						err = e2
+						return
+					}
+					err = out.(*view.BasicListView).Pop()
+				} else {
+					x, e2 := buildView(t.Elem, last)
+					if e2 != nil {
+						err = e2
+						return
+					}
+					if e2 := out.(*view.ComplexListView).Append(x); e2 != nil {
+						err = e2
+						return
+					}
+					err = out.(*view.ComplexListView).Pop()
+				}
+			}
+		}()
 		for _, e := range v.Seq {
 			if t.Elem.IsBasicElem() {
 				if err := d.(*view.BasicListView).Append(basicView(t.Elem, e)); err != nil {
@@ -34,6 +59,15 @@ func mutChain(t *Ty, v *Val) (view.View, error) {
 	case "bitlist":
 		for _, b := range v.Bits {
 			if err := d.(*view.BitListView).Append(view.BoolView(b)); err != nil {
+				return nil, err
+			}
+		}
+		// one element too many, then back (when the limit allows)
+		if uint64(len(v.Bits)) < t.N {
+			if err := d.(*view.BitListView).Append(view.BoolView(true)); err != nil {
+				return nil, err
+			}
+			if err := d.(*view.BitListView).Pop(); err != nil {
 				return nil, err
 			}
 		}
